@@ -108,7 +108,7 @@ def subject_for(tk, comp, sig):
     return sigs.subject_subkey(tk.pub, comp.key)
 
 
-def check_self_sigs(tk, others=()):
+def check_self_sigs(tk, others=(), check_left16=False):
     """Verify every signature whose issuer is the primary key (or, for embedded 0x19, the
     subkey).  Returns list of (component index or None, sig, ok, note)."""
     res = []
@@ -124,7 +124,7 @@ def check_self_sigs(tk, others=()):
         if iss != kid:
             return
         subj = subject_for(tk, comp, s)
-        ok = sigs.verify(s, tk.pub, subj)
+        ok = sigs.verify(s, tk.pub, subj, check_left16=check_left16)
         res.append((comp, s, ok, 'type 0x%02x' % s.type))
         if s.type == sigs.T_SUBKEY_BIND and comp is not None and comp.kind == 'subkey':
             for e in s.sub(sigs.SP_EMBEDDED):
@@ -133,7 +133,8 @@ def check_self_sigs(tk, others=()):
                 except WireError as ex:
                     res.append((comp, None, False, 'embedded unparsable: %s' % ex))
                     continue
-                res.append((comp, es, es.type == sigs.T_PRIMARY_BIND and sigs.verify(es, comp.key, subj), 'embedded 0x%02x' % es.type))
+                res.append((comp, es, es.type == sigs.T_PRIMARY_BIND and sigs.verify(es, comp.key, subj, check_left16=check_left16),
+                            'embedded 0x%02x' % es.type))
 
     for b in tk.direct:
         check(None, b)
